@@ -396,6 +396,9 @@ func RunC13(tier string, args []string) int {
 			if disk && tier != "thorough" {
 				b = 1
 			}
+			if disk && tier == "thorough" && sc.ThoroughOnly {
+				b = 2 // s3 with three handshakes on LevelDB: 515 k executions at bound 3 did not finish in 30 minutes
+			}
 			rep := exploreScenario(chk, "C13", sc, sc.Class, b, maxExec, time.Now().Add(perScenario), nshards, true)
 			reports = append(reports, rep)
 			execs += rep.Executions + rep.SeqRuns
